@@ -1014,6 +1014,9 @@ fn c05_gen_b(seed: u64, run: u64, thorough: bool) -> Plan {
     }
     plan
 }
+fn c05_gen_one_way(seed: u64, run: u64, thorough: bool) -> Plan {
+    world_b_one_way("C05", "b_one_way_stream", seed, run, thorough)
+}
 fn c05_oracles(plan: &Plan) -> Vec<Box<dyn Oracle>> {
     with_states(vec![Box::new(TransportOracle::new("C05", TransportClauses { ideal: true, ..Default::default() }, plan))])
 }
@@ -1023,6 +1026,8 @@ pub fn c05() -> CheckDef {
         property: "C05",
         families: vec![Family { name: "b_ideal", world: "B", weight: 1, gen: c05_gen_b, oracles: c05_oracles, adversary: None, keep_workload: false, custom: None,
             what: "the same through the public API: real Client/Server on a loss-free order-preserving link, 1-3 clients, both directions" },
+        Family { name: "b_one_way_stream", world: "B", weight: 1, gen: c05_gen_one_way, oracles: c05_oracles, adversary: None, keep_workload: false, custom: None,
+            what: "ideal link, one side streams packets of all modes but TimeSensitive every 3 ms .. timeout/3 for several silence timeouts (1.5-25 s) while the other side only acknowledges, with its keepalive off, slower than the timeout, or on: nothing may end the connection, so every packet has to arrive, in order" },
         Family { name: "a_ideal", world: "A", weight: 3, gen: c05_gen, oracles: c05_oracles, adversary: None, keep_workload: false, custom: None,
             what: "order-preserving loss-free link (fixed or varying latency 0.05 ms..3 s), both directions, bursts beyond the flush budget and both windows, arbitrary cadences and stalls, all initial ids; delivered sequence must equal submitted sequence minus sender-dropped TimeSensitive packets" }],
         panic_is_violation: all_panics,
